@@ -47,6 +47,9 @@ pub enum Msg {
     /// not a message on the connection under test: another, well-behaved peer completes this many pieces meanwhile
     /// (the manager broadcasts a Have for each to every connection task)
     OthersComplete(u8),
+    /// not a message: 21 virtual seconds pass (connection tasks report their rates), then the manager's real choke
+    /// rotation runs (regular slots and, every third round, a fresh optimistic unchoke)
+    Rotate,
 }
 
 #[derive(Clone, Debug, Serialize, Deserialize)]
@@ -77,6 +80,7 @@ fn strategy() -> BoxedStrategy<Case> {
         1 => (0u8..4).prop_map(Msg::Have),
         4 => (0u8..4).prop_map(Msg::Request),
         1 => Just(Msg::KeepAlive),
+        1 => Just(Msg::Rotate),
     ];
     let msg = prop_oneof![2 => hs_strategy().prop_map(Msg::Handshake), 7 => other.clone()];
     // positions: handshake first / late / absent / repeated all arise from the mix; a "first" class is forced
@@ -167,8 +171,19 @@ pub fn check(c: &Case) -> Outcome {
                         }
                     }
                 }
+                if let Msg::Rotate = m {
+                    w.advance_by(std::time::Duration::from_secs(21)).await;
+                    net.fold(w);
+                    for _ in 0..3 {
+                        let r = swarm::CatchUnwind(Box::pin(w.session.verif_rotate())).await;
+                        if !matches!(r, Ok(Ok(()))) {
+                            fails.push(("rotation-error".into(), format!("{:?}", r.map(|x| x.map_err(|e| e.to_string())))));
+                        }
+                    }
+                    classes.push("choke-rotation-during-the-script");
+                }
                 let bytes: Vec<u8> = match m {
-                    Msg::OthersComplete(_) => vec![],
+                    Msg::OthersComplete(_) | Msg::Rotate => vec![],
                     Msg::Handshake(h) => {
                         let mut hash = ih;
                         match &h.hash {
@@ -349,14 +364,14 @@ pub fn check(c: &Case) -> Outcome {
 pub fn def() -> PropDef {
     PropDef {
         id: "C08",
-        rule: "(12 % of the cases: a 140-piece torrent and a second, serving peer that completes 60-129 pieces - one Have broadcast each - at a generated point of the script) the client first downloads 3 of 4 pieces from an honest set-up peer (so files and statuses are consistent); then one connection (incoming: no expected id; outgoing: expected id) receives up to 15 messages: handshakes with protocol string right / wrong of the same length / wrong length, info-hash right / one bit off / random, peer id expected / different, at the first position, late, repeated or absent, mixed with bitfield, interested, unchoke, have, keep-alive and requests for owned pieces. Oracle on the bytes the client wrote, the KillReq and the manager snapshot: after a well-formed handshake with a foreign hash (or, outgoing, a foreign id) nothing more is written, the task ends, the peer is forgotten; the client's handshake is exactly 19|BitTorrent protocol|8x0|info_hash|own id, sent once and first; on an incoming connection nothing but keep-alives is written before a valid handshake has been read; no Piece frame before a valid handshake on any connection. Non-trivial = handshake not first, or some field invalid; distinct by hash of the case.",
+        rule: "(messages include Rotate: 21 virtual seconds pass and the manager's real choke rotation runs three times, so that an optimistic round is among them) (12 % of the cases: a 140-piece torrent and a second, serving peer that completes 60-129 pieces - one Have broadcast each - at a generated point of the script) the client first downloads 3 of 4 pieces from an honest set-up peer (so files and statuses are consistent); then one connection (incoming: no expected id; outgoing: expected id) receives up to 15 messages: handshakes with protocol string right / wrong of the same length / wrong length, info-hash right / one bit off / random, peer id expected / different, at the first position, late, repeated or absent, mixed with bitfield, interested, unchoke, have, keep-alive and requests for owned pieces. Oracle on the bytes the client wrote, the KillReq and the manager snapshot: after a well-formed handshake with a foreign hash (or, outgoing, a foreign id) nothing more is written, the task ends, the peer is forgotten; the client's handshake is exactly 19|BitTorrent protocol|8x0|info_hash|own id, sent once and first; on an incoming connection nothing but keep-alives is written before a valid handshake has been read; no Piece frame before a valid handshake on any connection. Non-trivial = handshake not first, or some field invalid; distinct by hash of the case.",
         assumptions: &["a handshake whose protocol string is malformed makes the rest of that stream undecodable for the reference model: afterwards only the 'nothing before a valid handshake' clauses are asserted"],
         subs: vec![Sub {
             name: "handshakes",
             cases: |t| t.pick(20_000, 300_000),
             run: |ctx| run_proptest(ctx, "handshakes", strategy(), check),
             replay: |v| replay_case::<Case>(v, check),
-            min_class: &[("handshake-late", 0.0941), ("handshake-absent", 0.061), ("wrong-info-hash", 0.1), ("wrong-peer-id", 0.0241), ("wrong-protocol-string", 0.05), ("served-after-valid-handshake", 0.05), ("repeated-valid-handshake", 0.03), ("outgoing", 0.2509), ("incoming", 0.2491), (">64-pieces-completed-meanwhile", 0.025)],
+            min_class: &[("handshake-late", 0.0941), ("handshake-absent", 0.061), ("wrong-info-hash", 0.1), ("wrong-peer-id", 0.0241), ("wrong-protocol-string", 0.05), ("served-after-valid-handshake", 0.05), ("repeated-valid-handshake", 0.03), ("outgoing", 0.2509), ("incoming", 0.2491), (">64-pieces-completed-meanwhile", 0.025), ("choke-rotation-during-the-script", 0.04)],
         }],
     }
 }
